@@ -40,7 +40,7 @@ ASSUMPTIONS = ["NUTS transition invariance is tested (long fixed-key chains, 6 s
 
 
 # ------------------------------------------------------------------------------------------------------------
-def gen_leap(rng, quick=True, kind=None):
+def gen_leap(rng, quick=True, kind=None, big=None):
     kind = kind or rng.choice(["quad", "quad", "quartic", "quartic", "nonpoly"])
     d = rng.randint(1, 3)
     L = [[dyadic(rng, -1, 1, 2) if j <= i else Fraction(0) for j in range(d)] for i in range(d)]
@@ -52,7 +52,7 @@ def gen_leap(rng, quick=True, kind=None):
         b[0] = Fraction(1, 2)
     c = [dyadic(rng, -1, 1, 2) for _ in range(d)]
     minv = [dyadic(rng, 0.25, 2, 2, nonzero=True) for _ in range(d)]
-    big = rng.random() < 0.4            # large steps: sizeable energy errors, so that rejections actually happen
+    big = (rng.random() < 0.4) if big is None else big            # large steps: sizeable energy errors, so that rejections actually happen
     eps = dyadic(rng, 10, 20, 0) / 16 if big else dyadic(rng, 1, 8, 0, nonzero=True) / 16
     n = rng.randint(1, 2 if kind == "quartic" else (3 if big else 6))
     q = [dyadic(rng, -1.5, 1.5, 2) for _ in range(d)]
@@ -514,7 +514,9 @@ def run(ctx):
     rng = ctx.rng
     cases = [gen_leap(rng, ctx.quick) for _ in range(ctx.n(5, 250))]
     for k in ("quad", "quartic", "nonpoly"):
-        cases.append(gen_leap(rng, ctx.quick, kind=k))
+        cases.append(gen_leap(rng, ctx.quick, kind=k, big=False))
+    for k in ("quad", "quad", "nonpoly"):
+        cases.append(gen_leap(rng, ctx.quick, kind=k, big=True))     # sizeable energy errors: rejections do happen
     lines = [dict(op="leapfrog", q=c["q"], p=c["p"], eps=c["eps"], n=c["n"], A=c["A"], b=c["b"], c=c["c"],
                   minv=c["minv"]) for c in cases if c["kind"] != "nonpoly"]
     outs = iter(ctx.model(DRIVER, lines))
